@@ -256,6 +256,27 @@ Section Routes.
     - intros Hl. inversion Hl. constructor.
   Qed.
 
+  (* the Msg-path chase over a store-backed Queryer: every appended hop was admitted for
+     (printed target of the previous alias, the client's type and CD), shared audience — and for
+     class IN, not for the client's class *)
+  Inductive msg_linked (qt : N) (cd : bool) : entry -> list entry -> Prop :=
+  | ml_nil e : msg_linked qt cd e []
+  | ml_cons e nxt l tw ls :
+      e_alias e = Some tw -> parse_wire tw = Some ls ->
+      same_question nxt (present ls) qt class_inet cd -> e_scope nxt = None ->
+      msg_linked qt cd nxt l -> msg_linked qt cd e (nxt :: l).
+
+  Lemma msg_chase_sound (s : store) fuel : forall qt cd e,
+    msg_linked qt cd e (msg_chase K K_eqb H s fuel qt cd e).
+  Proof.
+    induction fuel as [|f IH]; intros qt cd e; [constructor|].
+    cbn [msg_chase]. destruct (e_alias e) as [tw|] eqn:Ea; [|constructor].
+    destruct (parse_wire tw) as [ls|] eqn:Ep; cbn [option_map]; [|constructor].
+    destruct (store_lookup s (mk_q (present ls) qt class_inet) cd) as [nxt|] eqn:El; [|constructor].
+    apply store_lookup_sound in El. destruct El as [Hq Hs]. cbn [q_name q_type q_class] in Hq.
+    eapply ml_cons; eauto.
+  Qed.
+
   (* ---- subtree cuts *)
   Lemma cut_get_spec name qc l c :
     cut_get name qc l = Some c -> c_name c = name /\ c_class c = qc.
@@ -701,3 +722,22 @@ Example scoped_collision :
   serve_msg_exact N N.eqb len_hash ex_scoped ex_q1 false None = None /\
   serve_msg_exact N N.eqb len_hash ex_scoped ex_q1 false (Some (mk_scope true 8 [10;0;0;0])) = None.
 Proof. vm_compute. repeat split; reflexivity. Qed.
+
+(* the decoded-path chase does NOT keep the client's class: a class-CH alias hit is completed from
+   the class-IN entry of its target (computed witness; replayed on the Go code by the store driver's
+   hist-msgchase-class histories) *)
+Definition ex_ch_alias : store bytes :=
+  let hidf (p : bytes) := p in
+  let alias_q := mk_q [97;46] 1 3 in                       (* a. A CH *)
+  let target_in := mk_q [116;46] 1 1 in                    (* t. A IN *)
+  set_from_response bytes bytes_eqb (cachekey_pre target_in false None) target_in false None 2 None
+    (set_from_response bytes bytes_eqb (cachekey_pre alias_q false None) alias_q false None 1 (Some [1;116;0]) (empty_store bytes)).
+Lemma msg_chase_class_witness :
+  exists (s : store bytes) q cd e nxt,
+    serve_msg_exact bytes bytes_eqb (fun p => p) s q cd None = Some e /\
+    msg_chase bytes bytes_eqb (fun p => p) s 10 (q_type q) cd e = [nxt] /\
+    q_class q = 3 /\ q_class (e_q nxt) = 1.
+Proof.
+  exists ex_ch_alias, (mk_q [97;46] 1 3), false.
+  eexists. eexists. vm_compute. repeat split; reflexivity.
+Qed.
